@@ -193,6 +193,8 @@ mk_dw = _memo(lambda lab: DictWrapper({"name": lab}))
 def _fs_entry(lab):
     if lab == "a":
         return FileSystemEntry("dir_a", is_dir=True)
+    if lab == "b":  # falsy attribute values that are real values: an empty file dated at the epoch
+        return FileSystemEntry("b.txt", size=0, mdate=0.0)
     return FileSystemEntry(("ü_" if lab == "c" else "") + lab + ".txt", size=100 * _size_of(lab), mdate=1700000000.25 + _size_of(lab))
 
 
